@@ -46,7 +46,12 @@ func c02RecorderDoer(e *c02Env) c02Doer {
 		}
 		rec := httptest.NewRecorder()
 		start := time.Now()
-		e.srv.router.ServeHTTP(rec, req)
+		// a panic that escapes the whole chain is what net/http would turn into a
+		// closed connection: the client has no response
+		if pv, escaped := vk.Recover(func() { e.srv.router.ServeHTTP(rec, req) }); escaped {
+			return &c02Resp{Err: fmt.Sprintf("panic escaped the chain (net/http would close the connection without a response): %v", pv),
+				Seq: vk.Seq(), Elapsed: time.Since(start)}, nil
+		}
 		resp := c02FromRecorder(rec, start)
 		return resp, func() *c02Resp { return c02FromRecorder(rec, start) }
 	}
@@ -106,6 +111,7 @@ func c02RunBatch(m *vk.M, b int, racing bool) {
 		{Class: "conns", Method: http.MethodGet, N: 1, Timeout: fastOpt},
 		{Class: "gauge", Method: http.MethodGet, N: 2, Timeout: fastOpt},
 		{Class: "bytes", Method: http.MethodPost, N: 1, Timeout: fastOpt, MaxBytes: bytesOpt},
+		{Class: "pv", Method: http.MethodGet, N: c02PanicAlphabetRoutes, Timeout: fastOpt},
 	}
 	var descMu sync.Mutex
 	desc := func(extra string) string {
@@ -183,6 +189,9 @@ func c02RunBatch(m *vk.M, b int, racing bool) {
 				}
 			}
 		})
+	}
+	if b%3 == 0 {
+		worker("pv", func(r *rand.Rand) { c02ScPanicAlphabet(c, e, do, e.routes["pv"], r) })
 	}
 	worker("conns", func(r *rand.Rand) {
 		c02ScMaxConns(c, e, do, e.routes["conns"][0], bc.MaxConns, 1+r.Intn(4), r)
